@@ -300,6 +300,7 @@ def run_flow_case(c):
             model.paused = True
             # ---- what the oracles produced, recomputed from the recorded flow outputs with the real rescaling ----
             batches, keymap, dup, gid0 = [], {}, False, 0
+            prior_err, aug_rec = [], []
             use_marg = bool(marg_calls) and len(marg_calls) == len(calls)
             if marg_calls:
                 # (1) the value returned for point i must be the reduction over the augment draws OF POINT i: recompute the
@@ -333,7 +334,28 @@ def run_flow_case(c):
                 with np.errstate(all="ignore"):
                     x, lj = p.inverse_rescale(xs)
                     inb = model.in_bounds(x)
-                    lp = p.log_prior(x)
+                    lp_code = np.asarray(p.log_prior(x), dtype=float)
+                    # the log-prior of the weights, recomputed independently: the model's own prior at the physical point
+                    # (+ the reparameterisation's, zero for the ones used here) + log N(e_k) for EVERY augment parameter
+                    lp = np.asarray(model.raw_prior(x), dtype=float)
+                    rp_ = getattr(p, "_reparameterisation", None)
+                    if rp_:
+                        lp = lp + rp_.log_prior(x)
+                    comps = []
+                    if cls is AugmentedFlowProposal and not c.get("marg"):
+                        from scipy import stats as _st2
+                        for an in p.augment_parameters:
+                            comps.append(np.asarray(_st2.norm.logpdf(x[an]), dtype=float))
+                        aug = np.zeros(len(lp))
+                        for cm in comps:
+                            aug = aug + cm
+                        lp_model_part = lp.copy()
+                        lp = lp + aug
+                        aug_rec.append({"model": [fx(v) for v in lp_model_part[:6]], "factors": [[fx(cm[i]) for cm in comps] for i in range(min(6, len(lp)))],
+                                        "top": [fx(v) for v in lp_code[:6]]})
+                    fin_ = np.isfinite(lp) & np.isfinite(lp_code)
+                    same_nf = np.array_equal(np.isfinite(lp), np.isfinite(lp_code)) and np.array_equal(lp[~fin_], lp_code[~fin_], equal_nan=True)
+                    prior_err.append(float("inf") if not same_nf else (float(np.abs(lp[fin_] - lp_code[fin_]).max()) if fin_.any() else 0.0))
                 lj = np.broadcast_to(np.asarray(lj, dtype=float), lq.shape)
                 cs = []
                 for i in range(len(lq)):
@@ -352,6 +374,9 @@ def run_flow_case(c):
             rec["final_us"] = [fx(np.log(v)) for v in post[-1]] if post else []
             rec["n_rand_calls"] = len(spy.calls)
             rec["dup"] = dup
+            rec["prior_err"] = max(prior_err) if prior_err else 0.0
+            rec["aug_prior"] = aug_rec[:3]
+            rec["augment_dims"] = int(getattr(p, "augment_dims", 0)) if cls is AugmentedFlowProposal else 0
             # ---- latent contour of THIS population: radii of all latent points handed to the flow -----------------
             try:
                 rec["r"], rec["fuzz"] = float(p.r), float(p.fuzz)
@@ -869,6 +894,92 @@ def run_ins_draw(c):
 
 
 # --------------------------------------------------------------------------------------------------------
+def run_latent(c):
+    """ORACLE VALIDATION: the latent draws of every latent prior follow the density whose log-density populate uses as
+    log_q.  Draws go through the real FlowProposal.prep_latent_prior / draw_latent_prior (dims >= 2) or, in one dimension
+    (no flow can be built), through the sampling function prep_latent_prior would bind.  Each draw is mapped to statistics
+    that are uniform on [0, 1] under the stated density; the driver bounds the bin counts with exact binomial quantiles."""
+    from scipy import stats
+    from nessai.model import Model
+    from nessai.proposal.flowproposal import FlowProposal
+    np.random.seed(c["seed"])
+    d, latent, R, fuzz, n = c["dims"], c["latent"], c["r"], c["fuzz"], c["n"]
+
+    if d >= 2:
+        import torch
+        torch.manual_seed(c["seed"])
+
+        class U(Model):
+            def __init__(self):
+                self.names = [f"x{i}" for i in range(d)]
+                self.bounds = {k: [-5.0, 5.0] for k in self.names}
+
+            def log_prior(self, x):
+                return np.log(self.in_bounds(x), dtype=float) - d * np.log(10.0)
+
+            def log_likelihood(self, x):
+                return np.zeros(x.size)
+
+        tmp = tempfile.mkdtemp(prefix="c09l_", dir=os.getcwd())
+        p = FlowProposal(U(), poolsize=10, output=tmp, plot=False, latent_prior=latent, constant_volume_mode=False,
+                         fixed_radius=R, expansion_fraction=None, fuzz=fuzz, flow_config={"n_blocks": 1, "n_neurons": 4})
+        if latent == "flow":
+            p.initialise()
+            p.fuzz = fuzz
+        else:
+            p.set_rescaling()
+        p.r = R
+        p.prep_latent_prior()
+        z = np.concatenate([np.asarray(p.draw_latent_prior(n // 4), dtype=float) for _ in range(4)])
+        how = "FlowProposal.prep_latent_prior + draw_latent_prior"
+    else:
+        from nessai.utils import sampling as S
+        if latent == "truncated_gaussian":
+            z = S.NDimensionalTruncatedGaussian(d, R, fuzz=fuzz).sample(n)
+        elif latent in ("uniform_nball", "uniform_nsphere"):
+            z = S.draw_nsphere(d, r=R, N=n, fuzz=fuzz)
+        elif latent == "gaussian":
+            z = S.draw_gaussian(d, r=R, N=n, fuzz=fuzz)
+        elif latent == "uniform":
+            z = S.draw_uniform(d, r=R, N=n, fuzz=fuzz)
+        else:
+            return {"skipped": "no flow in one dimension"}
+        z = np.asarray(z, dtype=float)
+        how = "nessai.utils.sampling (the function prep_latent_prior binds)"
+    rad = np.sqrt(np.sum(z ** 2, axis=1))
+    lim = R * fuzz
+    st = {}
+    if latent in ("uniform_nball", "uniform_nsphere"):
+        st["radial: (|z| / (r fuzz))^d"] = (rad / lim) ** d                 # uniform density in the ball
+    elif latent == "truncated_gaussian":
+        st["radial: chi2 cdf of |z|^2, truncated at r fuzz"] = stats.chi2.cdf(rad ** 2, d) / stats.chi2.cdf(lim ** 2, d)
+    elif latent in ("gaussian", "flow"):
+        st["radial: chi2 cdf of |z|^2"] = stats.chi2.cdf(rad ** 2, d)
+        st["coordinate 0: normal cdf"] = stats.norm.cdf(z[:, 0])
+        st[f"coordinate {d - 1}: normal cdf"] = stats.norm.cdf(z[:, -1])
+    elif latent == "uniform":
+        st["coordinate 0"] = z[:, 0]
+        st[f"coordinate {d - 1}"] = z[:, -1]
+    if latent in ("uniform_nball", "uniform_nsphere", "truncated_gaussian"):
+        # direction: isotropic, so every coordinate of z / |z| is symmetric and (d >= 2) its square is Beta(1/2, (d-1)/2)
+        st["direction: sign of coordinate 0"] = None
+        if d >= 2:
+            st["direction: beta cdf of (z_0 / |z|)^2"] = stats.beta.cdf((z[:, 0] / rad) ** 2, 0.5, 0.5 * (d - 1))
+    edges = [0.0, 0.25, 0.5, 0.75, 1.0]
+    out = {"how": how, "n": int(len(z)), "shape_ok": bool(z.shape == (len(z), d)), "stats": {}}
+    for k, u in st.items():
+        if k.startswith("direction: sign"):
+            cnt = [int(np.sum(z[:, 0] <= 0)), int(np.sum(z[:, 0] > 0))]
+            out["stats"][k] = {"counts": cnt, "probs": [0.5, 0.5]}
+            continue
+        u = np.asarray(u, dtype=float)
+        cnt = [int(np.sum((u >= a) & (u < b))) for a, b in zip(edges[:-1], edges[1:])]
+        cnt[-1] += int(np.sum(u >= 1.0))
+        out["stats"][k] = {"counts": cnt, "probs": [0.25] * 4, "outside": int(np.sum((u < 0) | (u > 1 + 1e-12) | ~np.isfinite(u)))}
+    return out
+
+
+# --------------------------------------------------------------------------------------------------------
 def run_stat(c):
     """VALIDATION ONLY (not part of the proof): the pool of a trained FlowProposal against brute-force rejection sampling
     from the prior restricted to the same latent contour, two-sample KS test per coordinate."""
@@ -923,7 +1034,7 @@ def main():
     job = json.load(sys.stdin)
     out = {}
     table = {"flow": run_flow_case, "rej": run_rej_case, "radial": run_radial, "prims": run_prims,
-             "real": run_real, "ins": run_ins_draw, "stat": run_stat}
+             "real": run_real, "ins": run_ins_draw, "stat": run_stat, "latent": run_latent}
     for kind, fn in table.items():
         res = []
         for c in job.get(kind, []):
